@@ -219,7 +219,9 @@ def strip_generics(path):
                     if d == 0: break
                 j += 1
             inner = path[i + 1:j]
-            if inner.startswith('impl ') and not is_qself(path, i):
+            prev_seg = ''.join(out).rstrip(':').split('::')[-1] if out else ''
+            is_turbofish_impl = inner.startswith('impl ') and not inner.startswith('impl at ') and (prev_seg[:1].isupper() or j + 1 >= n)
+            if inner.startswith('impl ') and not is_qself(path, i) and not is_turbofish_impl:
                 out.append(path[i:j + 1])
             elif is_qself(path, i):
                 k = _find_as(inner)
